@@ -33,7 +33,7 @@ CM, CL, CH = 0.0856, 0.845, 0.204
 TKE = 0.8
 
 
-GEOMS = ((None, None), (10.0, None), (3.0, 1.0), (None, 0.5), (20.0, 4.0), (1.5, None), (5.0, 1.5), (100.0, 0.25), (2.0, 2.0))  # domain height > measurement height (equal is a rounding knife-edge of the node count)
+GEOMS = ((None, None), (1.0, None), (10.0, None), (3.0, 1.0), (None, 0.5), (20.0, 4.0), (1.5, None), (5.0, 1.5), (100.0, 0.25), (2.0, 2.0))  # (1.0, None): the domain ends AT the measurement height - node count repaired by fix e4ee32f (D12)
 
 
 def lattice(tier):
